@@ -88,7 +88,7 @@ Theorem cached_exec_eq_direct_gaps : forall T V G, covers T (vminus V G) = true 
   (forall s, In s (stmts (h1 ++ h2)) -> wf T s = true /\ gapfree G s = true) ->
   callable_uniform T (stmts (h1 ++ h2)) ->
   fst (run T V SQL render (snd (run T V SQL render [] h1)) h2)
-  = map (fun x => exec_direct T V SQL render (s_ctx x) (s_stmt x)) h2.
+  = map (fun x => exec_direct T V SQL render (s_ctx x) (s_stmt x) (s_sets x)) h2.
 Proof.
   intros T V G Hc SQL render Hh h1 h2 HU Hcall.
   set (U := stmts (h1 ++ h2)).
@@ -127,7 +127,7 @@ Theorem cached_exec_eq_direct : forall T V, covers T V = true ->
   (forall s, In s (stmts (h1 ++ h2)) -> wf T s = true) ->
   callable_uniform T (stmts (h1 ++ h2)) ->
   fst (run T V SQL render (snd (run T V SQL render [] h1)) h2)
-  = map (fun x => exec_direct T V SQL render (s_ctx x) (s_stmt x)) h2.
+  = map (fun x => exec_direct T V SQL render (s_ctx x) (s_stmt x) (s_sets x)) h2.
 Proof.
   intros T V Hc SQL render Hh h1 h2 HU Hcall.
   apply (cached_exec_eq_direct_gaps T V []); auto.
@@ -139,21 +139,20 @@ Qed.
 Theorem rebind_positional_gaps : forall T V G, covers T (vminus V G) = true ->
   forall (SQL : Type) (render : atom -> ktree -> SQL * list N),
   (forall ctx v, incl (snd (render ctx v)) (kbl T v)) ->
-  forall ctx s0 s k b0 b,
+  forall ctx s0 s k b0 b (sets : list pset),
   wf T s0 = true -> wf T s = true -> gapfree G s0 = true -> gapfree G s = true ->
   gen_key T s0 = Some (k, b0) -> gen_key T s = Some (k, b) -> map bcall b0 = map bcall b ->
-  (tsql SQL (compile T V SQL render ctx s0 b0), rebind SQL (compile T V SQL render ctx s0 b0) b)
-  = exec_direct T V SQL render ctx s.
+  (tsql SQL (compile T V SQL render ctx s0 b0), rebind_many SQL (compile T V SQL render ctx s0 b0) b sets)
+  = exec_direct T V SQL render ctx s sets.
 Proof.
-  intros T V G Hc SQL render Hh ctx s0 s k b0 b W0 W1 G0 G1 K0 K1 Hcall.
-  pose (x0 := mkStep ctx s0 true (fun _ => false)). pose (x1 := mkStep ctx s true (fun _ => false)).
+  intros T V G Hc SQL render Hh ctx s0 s k b0 b sets W0 W1 G0 G1 K0 K1 Hcall.
   assert (forall z, In z [s0; s] -> wf T z = true) as HUw by (intros z [<-|[<-|[]]]; assumption).
   assert (forall z, In z [s0; s] -> gapfree G z = true) as HUg by (intros z [<-|[<-|[]]]; assumption).
   assert (forall z, In z [s0; s] -> forall kz bz, gen_key T z = Some (kz, bz) -> kz = k -> map bcall bz = map bcall b) as Hcb.
   { intros z [<-|[<-|[]]] kz bz Kz Ek; subst kz.
     - rewrite K0 in Kz; inversion Kz; subst; exact Hcall.
     - rewrite K1 in Kz; inversion Kz; subst; reflexivity. }
-  refine (rebind_positional T V SQL render [s0; s] Hh HUw _ _ _ ctx s0 s k b0 b _ _ K0 K1).
+  refine (rebind_positional T V SQL render [s0; s] Hh HUw _ _ _ ctx s0 s k b0 b sets _ _ K0 K1).
   - intros s1 s2 k' b1 b2 I1 I2 K1' K2'.
     rewrite (view_gapfree T V G s1 (HUg _ I1)), (view_gapfree T V G s2 (HUg _ I2)).
     exact (key_determines_view T (vminus V G) Hc s1 s2 k' b1 b2 (HUw _ I1) (HUw _ I2) K1' K2').
